@@ -846,6 +846,22 @@ func init() {
 }
 
 func hostMethod(p *Path, hv HostVal, name string, args []Value) Value {
+	if rt, ok := hv.v.(reflectTypeHost); ok {
+		switch name {
+		case "Elem":
+			switch u := under(rt.t).(type) {
+			case *types.Pointer:
+				return IfaceVal{t: hostReflectType, v: HostVal{reflectTypeHost{u.Elem()}}}
+			case *types.Slice:
+				return IfaceVal{t: hostReflectType, v: HostVal{reflectTypeHost{u.Elem()}}}
+			}
+			panic(unsupported("reflect.Type.Elem"))
+		case "Kind":
+			return mkInt(reflectKind(rt.t))
+		case "String", "Name":
+			return mkStr(rt.t.String())
+		}
+	}
 	if hv.v == "ctx" {
 		switch name {
 		case "Done":
@@ -1508,4 +1524,117 @@ func (e *Engine) hostIntEntries(name, prefix string) []hostIntEntry {
 	sort.Slice(out, func(i, j int) bool { return out[i].k < out[j].k })
 	hostIntCache.Store(key, out)
 	return out
+}
+
+// ---------- reflect-lite: just what ConfigManager.LoadAndUnmarshalConfig needs ----------
+
+// ReflectVal models a reflect.Value: the wrapped value, its static type and, when
+// addressable, the cell it lives in.
+type ReflectVal struct {
+	v    Value
+	t    types.Type
+	cell *Cell
+}
+
+type reflectTypeHost struct{ t types.Type }
+
+var hostReflectType types.Type
+
+func reflectKind(t types.Type) int64 {
+	switch u := under(t).(type) {
+	case *types.Basic:
+		switch {
+		case u.Info()&types.IsBoolean != 0:
+			return 1
+		case u.Kind() == types.Int:
+			return 2
+		case u.Kind() == types.Int64:
+			return 6
+		case u.Info()&types.IsString != 0:
+			return 24
+		}
+		return 2
+	case *types.Interface:
+		return 20
+	case *types.Map:
+		return 21
+	case *types.Pointer:
+		return 22
+	case *types.Slice:
+		return 23
+	case *types.Struct:
+		return 25
+	}
+	return 0
+}
+
+func init() {
+	hostReflectType = types.NewNamed(types.NewTypeName(0, nil, "gosymReflectType", nil), types.NewStruct(nil, nil), nil)
+	I := intrinsics
+	I["reflect.ValueOf"] = func(p *Path, a []Value, _ *ssa.CallCommon) Value {
+		iv, ok := a[0].(IfaceVal)
+		if !ok || iv.t == nil {
+			return ReflectVal{}
+		}
+		return ReflectVal{v: iv.v, t: iv.t}
+	}
+	I["(reflect.Value).Kind"] = func(p *Path, a []Value, _ *ssa.CallCommon) Value {
+		rv := a[0].(ReflectVal)
+		if rv.t == nil {
+			return mkInt(0)
+		}
+		return mkInt(reflectKind(rv.t))
+	}
+	I["(reflect.Value).Elem"] = func(p *Path, a []Value, _ *ssa.CallCommon) Value {
+		rv := a[0].(ReflectVal)
+		pt, ok := under(rv.t).(*types.Pointer)
+		if !ok {
+			panic(unsupported("reflect.Value.Elem of non-pointer"))
+		}
+		ptr := rv.v.(Ptr)
+		if ptr.c == nil {
+			return ReflectVal{}
+		}
+		return ReflectVal{v: nil, t: pt.Elem(), cell: ptr.c}
+	}
+	I["(reflect.Value).CanAddr"] = func(p *Path, a []Value, _ *ssa.CallCommon) Value {
+		return mkBool(a[0].(ReflectVal).cell != nil)
+	}
+	I["(reflect.Value).Type"] = func(p *Path, a []Value, _ *ssa.CallCommon) Value {
+		rv := a[0].(ReflectVal)
+		return IfaceVal{t: hostReflectType, v: HostVal{reflectTypeHost{rv.t}}}
+	}
+	I["reflect.Indirect"] = func(p *Path, a []Value, _ *ssa.CallCommon) Value {
+		rv := a[0].(ReflectVal)
+		if pt, ok := under(rv.t).(*types.Pointer); ok {
+			ptr := rv.v.(Ptr)
+			if ptr.c == nil {
+				return ReflectVal{}
+			}
+			return ReflectVal{t: pt.Elem(), cell: ptr.c}
+		}
+		return rv
+	}
+	I["(reflect.Value).Set"] = func(p *Path, a []Value, _ *ssa.CallCommon) Value {
+		dst := a[0].(ReflectVal)
+		src := a[1].(ReflectVal)
+		if dst.cell == nil {
+			p.goPanicf("reflect: reflect.Value.Set using unaddressable value")
+		}
+		var val Value
+		if src.cell != nil {
+			val = src.cell.load()
+		} else {
+			val = src.v
+		}
+		if !types.AssignableTo(src.t, dst.t) {
+			p.goPanicf("reflect.Set: value of type %v is not assignable to type %v", src.t, dst.t)
+		}
+		if _, isI := under(dst.t).(*types.Interface); isI {
+			val = IfaceVal{t: src.t, v: val}
+		}
+		p.specCheckStore(dst.cell)
+		dst.cell.store(val)
+		return nil
+	}
 }
